@@ -66,6 +66,8 @@ def call(ex, st, fn, args, kw, node):
             yield st, ex.contracts["strof:" + v.ty.args[0]](ex, st, v); return
         if isinstance(v, Ref) and ("ref:%s.__str__" % v.cls) in ex.contracts:
             yield from ex.contracts["ref:%s.__str__" % v.cls](ex, st, v, [], {}); return
+        if isinstance(v, Ref) and S.find_class(v.cls) is None and isinstance(st.heap.get(v.oid, {}).get("args"), tuple) and len(st.heap[v.oid]["args"]) == 1 and isinstance(st.heap[v.oid]["args"][0], str):
+            yield st, st.heap[v.oid]["args"][0]; return         # str(<built-in exception>) is its single argument
         if isinstance(v, Ref):
             cls = S.find_class(v.cls); k, m = S.lookup_method(cls, "__str__") if cls else (None, None)
             if m is not None:
